@@ -74,6 +74,21 @@ func (fv *FV) call(st *State, instr ssa.Instruction, c *ssa.CallCommon, res ssa.
 			fv.unsupportedf("no contract for interface method %s", key)
 		}
 		fv.safety(st, "nil-iface-call", at, fmt.Sprintf("(not (= (ityp %s) 0))", recv.T))
+		target, rtyp, external := fv.resolveDyn(st, recv, c.Method)
+		if target != nil {
+			rv := Val{T: fmt.Sprintf("(ival %s)", recv.T), S: "Int", Typ: rtyp}
+			if _, isPtr := rtyp.Underlying().(*types.Pointer); !isPtr {
+				fv.unsupportedf("interface call resolved to value receiver %s", rtyp)
+			}
+			fv.eng.note(fmt.Sprintf("interface call %s in %s resolved to %s from the path condition", key, fv.fc.Key, target.String()))
+			fv.callFunction(st, target, append([]Val{rv}, args...), 0, at, done)
+			return
+		}
+		if !external {
+			// dynamic type unknown: the callee may be any implementor; nothing about the heap survives
+			fv.touchEverything(st, "iface:"+shortKey(key))
+			fv.havocAllHeaps(st)
+		}
 		sig := c.Method.Type().(*types.Signature)
 		names := []string{"self"}
 		for i := 0; i < sig.Params().Len(); i++ {
@@ -236,6 +251,7 @@ func (fv *FV) applyContract(st *State, fc *FuncContract, key string, names []str
 	if fc.HasMod {
 		fv.applyModifies(st, fc.Modifies, env)
 	} else if !fc.Pure {
+		fv.touchEverything(st, "call:"+shortKey(key))
 		fv.havocAllHeaps(st)
 		fv.havocGhost(st)
 	}
@@ -304,6 +320,7 @@ func (fv *FV) ghostAssign(st *State, ga GhostAssign, env *Env) {
 	switch ga.LHS.Op {
 	case "id":
 		if _, ok := fv.u.db.GGlobal[ga.LHS.Name]; ok {
+			fv.touchGhost(st, ga.LHS.Name, "assign")
 			st.ghost[ga.LHS.Name] = Val{T: fv.define(st, "gg_"+ga.LHS.Name, rhs.S, rhs.T), S: rhs.S}
 			return
 		}
@@ -311,6 +328,7 @@ func (fv *FV) ghostAssign(st *State, ga GhostAssign, env *Env) {
 		base := fv.asTermSpec(env, fv.evalSpec(ga.LHS.Args[0], env))
 		if gf, ok := fv.u.db.GFields[structName(base.Typ)+"."+ga.LHS.Name]; ok {
 			k := "G_" + gf.Struct + "_" + gf.Name
+			fv.touch(st, "", base.T, "ghost-field")
 			fv.setHeapK(st, k, gf.Sort, fmt.Sprintf("(store %s %s %s)", fv.ghostHeap(st, gf), base.T, rhs.T))
 			return
 		}
@@ -323,6 +341,7 @@ func (fv *FV) ghostAssign(st *State, ga GhostAssign, env *Env) {
 				idx := fv.evalSpec(ga.LHS.Args[1], env)
 				k := "G_" + gf.Struct + "_" + gf.Name
 				h := fv.ghostHeap(st, gf)
+				fv.touch(st, "", base.T, "ghost-field")
 				fv.setHeapK(st, k, gf.Sort, fmt.Sprintf("(store %s %s (store (select %s %s) %s %s))", h, base.T, h, base.T, idx.T, rhs.T))
 				return
 			}
@@ -333,19 +352,24 @@ func (fv *FV) ghostAssign(st *State, ga GhostAssign, env *Env) {
 
 // applyModifies havocs exactly the listed locations.
 func (fv *FV) applyModifies(st *State, mods []*Expr, env *Env) {
+	// targets are evaluated in the pre-state, then havocked
+	pre := *env
+	pre.st = st.clone()
 	for _, m := range mods {
-		fv.applyModify(st, m, env)
+		fv.applyModify(st, m, &pre)
 	}
 }
 
 func (fv *FV) applyModify(st *State, m *Expr, env *Env) {
 	switch {
 	case m.Op == "id" && m.Name == "everything":
+		fv.touchEverything(st, "modifies-everything")
 		fv.havocAllHeaps(st)
 		fv.havocGhost(st)
 		return
 	case m.Op == "id" && fv.u.db.GGlobal[m.Name] != "":
 		s := fv.u.db.GGlobal[m.Name]
+		fv.touchGhost(st, m.Name, "callee")
 		st.ghost[m.Name] = Val{T: fv.fresh("gg_"+m.Name, s), S: s}
 		return
 	case m.Op == "call" && m.Name == "HA":
@@ -359,15 +383,28 @@ func (fv *FV) applyModify(st *State, m *Expr, env *Env) {
 		hs := "(Array Int " + es + ")"
 		h := fv.heap(st, hs)
 		na := fv.fresh("arr", hs)
+		fv.touch(st, hs, fmt.Sprintf("(sref %s)", s.T), "callee-HA")
 		fv.setHeap(st, hs, fmt.Sprintf("(store %s (sref %s) %s)", h, s.T, na))
 		return
+	case m.Op == "call" && m.Name == "obj":
+		fv.havocObject(st, fv.evalSpec(m.Args[0], env), env)
+		return
 	case m.Op == "call" && m.Name == "heap":
-		// heap("T"): the whole heap of a sort (coarse)
-		fv.specErr("heap() modifies not supported")
+		// heap("T"): the whole heap of a sort (coarse region)
+		for _, k := range fv.heapKeysOfTypeName(m.Args[0].Name) {
+			if fv.frame != nil && !fv.frame.everything && !fv.frame.heaps[k] {
+				fv.nTouch++
+				fv.addObl(st, "frame", fmt.Sprintf("frame:callee-heap#%d@%s", fv.nTouch, st.fr.fn.Name()), "false", "callee modifies the whole heap of "+m.Args[0].Name, nil)
+			}
+			fv.heap(st, k)
+			fv.havocHeap(st, k)
+		}
+		return
 	case m.Op == "call" && m.Name == "mapOf":
 		mv := fv.evalSpec(m.Args[0], env)
 		mt := mv.Typ.Underlying().(*types.Map)
 		ks, vs := fv.u.sortOf(mt.Key(), fv.bv), fv.u.sortOf(mt.Elem(), fv.bv)
+		fv.touch(st, "(Array " + ks + " " + vs + ")", mv.T, "callee-map")
 		for _, hs := range []string{"(Array " + ks + " Bool)", "(Array " + ks + " " + vs + ")"} {
 			h := fv.heap(st, hs)
 			fv.setHeap(st, hs, fmt.Sprintf("(store %s %s %s)", h, mv.T, fv.fresh("mapc", hs)))
@@ -381,27 +418,13 @@ func (fv *FV) applyModify(st *State, m *Expr, env *Env) {
 		if gf, ok := fv.u.db.GFields[structName(base.Typ)+"."+m.Name]; ok {
 			b := fv.asTermSpec(env, base)
 			k := "G_" + gf.Struct + "_" + gf.Name
+			fv.touch(st, "", b.T, "callee-ghost-field")
 			fv.setHeapK(st, k, gf.Sort, fmt.Sprintf("(store %s %s %s)", fv.ghostHeap(st, gf), b.T, fv.fresh("g_"+gf.Name, gf.Sort)))
 			return
 		}
-		// a single field of an object
-		if pt, ok := base.Typ.Underlying().(*types.Pointer); ok {
-			stt, ok := pt.Elem().Underlying().(*types.Struct)
-			if ok {
-				for i := 0; i < stt.NumFields(); i++ {
-					if stt.Field(i).Name() == m.Name {
-						l := fv.ptrLoc(base)
-						si := fv.u.structInfo(pt.Elem(), fv.bv)
-						nl := &Loc{heap: l.heap, ref: l.ref, path: append(append([]step(nil), l.path...), step{field: i, sort: si.FSorts[i], ssort: si.Sort}), typ: stt.Field(i).Type()}
-						nv := Val{T: fv.fresh("f_"+m.Name, si.FSorts[i]), S: si.FSorts[i], Typ: stt.Field(i).Type()}
-						fv.store(st, nl, nv.T)
-						fv.assumeWF(st, nv)
-						return
-					}
-				}
-			}
-		}
-		fv.specErr("modifies: cannot resolve %s", m)
+		// a pointer-valued field denotes the object it points to
+		fv.havocObject(st, fv.fieldOf(base, m.Name, env, m), env)
+		return
 	default:
 		v := fv.evalSpec(m, env)
 		fv.havocObject(st, v, env)
@@ -417,6 +440,7 @@ func (fv *FV) havocObject(st *State, v Val, env *Env) {
 		sort := fv.u.sortOf(t.Elem(), fv.bv)
 		b := fv.asTermSpec(env, v)
 		h := fv.heap(st, sort)
+		fv.touch(st, sort, b.T, "callee-object")
 		nv := fv.fresh("obj", sort)
 		fv.setHeap(st, sort, fmt.Sprintf("(store %s %s %s)", h, b.T, nv))
 		fv.assumeStructWF(st, nv, t.Elem())
@@ -436,8 +460,19 @@ func (fv *FV) havocObject(st *State, v Val, env *Env) {
 			fv.setHeapK(st, kk, gf.Sort, fmt.Sprintf("(store %s %s %s)", fv.ghostHeap(st, gf), b.T, fv.fresh("g_"+gf.Name, gf.Sort)))
 		}
 	case *types.Interface:
-		// object behind an interface: unknown concrete type; only ghost globals and
-		// objects named explicitly can change. Nothing to do for typed heaps.
+		// object behind an interface: unknown concrete type: havoc that index in every heap
+		b := fv.asTermSpec(env, v)
+		ref := fv.define(st, "ifobj", "Int", fmt.Sprintf("(ival %s)", b.T))
+		fv.touch(st, "", ref, "callee-iface-object")
+		keys := make([]string, 0)
+		for k := range fv.heapsUsed {
+			keys = append(keys, k)
+		}
+		sortStrings(keys)
+		for _, k := range keys {
+			srt := fv.heapsUsed[k]
+			fv.setHeapK(st, k, srt, fmt.Sprintf("(store %s %s %s)", fv.heapK(st, k, srt), ref, fv.fresh("ifo", srt)))
+		}
 	default:
 		fv.specErr("modifies: unsupported target type %s", v.Typ)
 	}
@@ -507,6 +542,7 @@ func (fv *FV) builtin(st *State, b *ssa.Builtin, c *ssa.CallCommon, at string) V
 		na := fv.fresh("copied", hs)
 		st.assume(fmt.Sprintf("(forall ((k Int)) (! (= (select %s k) (ite (and (<= (soff %s) k) (< k (+ (soff %s) %s))) (select %s (+ (- k (soff %s)) (soff %s))) (select %s k))) :pattern ((select %s k))))",
 			na, d.T, d.T, n, src, d.T, s.T, dst, na))
+		fv.touchUnless(st, hs, fmt.Sprintf("(sref %s)", d.T), "copy", fmt.Sprintf("(= %s 0)", n))
 		fv.setHeap(st, hs, fmt.Sprintf("(store %s (sref %s) %s)", h, d.T, na))
 		return fv.intResult(n, types.Typ[types.Int])
 	}
@@ -558,6 +594,7 @@ func (fv *FV) appendSlices(st *State, s, t Val, typ types.Type, targ ssa.Value) 
 	}
 	st.assume(fmt.Sprintf("(=> %s (forall ((k Int)) (! (=> (or (< k (+ %s (slen %s))) (>= k (+ %s %s))) (= (select %s k) (select %s k))) :pattern ((select %s k)))))",
 		fits, off, s.T, off, newlen, na, oldS, na))
+	fv.touchUnless(st, hs, ref, "append", fmt.Sprintf("(= %s 0)", n))
 	fv.setHeap(st, hs, fmt.Sprintf("(store %s %s %s)", h, ref, na))
 	return Val{T: fv.define(st, "app", "Slice", fmt.Sprintf("(mk-slice %s %s %s %s)", ref, off, newlen, cp)), S: "Slice", Typ: typ}
 }
